@@ -57,7 +57,15 @@ func c17Load(sdl, backend string) (*ggql.Root, error) {
 		root.AnyResolver = c17Any{}
 	}
 	var err error
-	pv, _ := run.Protect(func() { err = root.ParseString(sdl) })
+	pv, _ := run.Protect(func() {
+		if len(sdl)%2 == 0 {
+			// the very first document the fresh root is given is one it turns down AFTER reading it (a rule breach, no syntax
+			// error): it defined all three default root operation types, with fields of its own. Introspection afterwards
+			// describes the accepted schema and nothing of this one
+			_ = root.ParseString("type Query { staleZz: Int }\ntype Mutation { staleMutZz: Int }\ntype Subscription { staleSubZz: Int }\ntype ZzEmpty { }\n")
+		}
+		err = root.ParseString(sdl)
+	})
 	if pv != nil {
 		return nil, fmt.Errorf("panic: %v", pv)
 	}
@@ -753,6 +761,12 @@ func runC17(c *run.Ctx) {
 			}
 		}
 		sdl := ms.SDL(model.SDLOpts{BlockDesc: i%3 == 0}) + extSchema
+		if i%6 == 3 {
+			// the document comes from a machine that ends its lines with CR LF (block descriptions span lines): the schema it
+			// describes is the same
+			sdl = strings.ReplaceAll(sdl, "\n", "\r\n")
+			c.Bucket("steering", "document-with-CRLF-line-ends-and-block-descriptions")
+		}
 		nontriv := strings.Contains(sdl, "@deprecated") || strings.Contains(sdl, " = ") || strings.Contains(sdl, "directive @")
 		roots := map[string]*ggql.Root{}
 		okLoad := true
